@@ -339,6 +339,8 @@ struct RunResult {
     kinds: Vec<String>,
     /// kind used in the signature when this op's step breaks the invariant (finite enumeration)
     sig_kinds: Vec<String>,
+    /// the operation's pipeline names were also used by another group when it planned or committed
+    shared: Vec<bool>,
     /// workers touched per op
     touched: Vec<BTreeSet<String>>,
     trace: Vec<J>,
@@ -421,6 +423,7 @@ fn run_history(coord: &mut Coordinator, l: &Layout, ops: &[OpSpec], sched: &[(us
     let mut pending: Vec<Pending> = ops.iter().map(|_| Pending::None).collect();
     let mut kinds: Vec<String> = ops.iter().map(|_| String::new()).collect();
     let mut sig_kinds: Vec<String> = ops.iter().map(|o| base_kind(o).to_string()).collect();
+    let mut shared_flags: Vec<bool> = ops.iter().map(|_| false).collect();
     let mut touched: Vec<BTreeSet<String>> = ops.iter().map(|_| BTreeSet::new()).collect();
     let mut new_gid: Option<String> = None;
     let mut trace = vec![];
@@ -430,7 +433,7 @@ fn run_history(coord: &mut Coordinator, l: &Layout, ops: &[OpSpec], sched: &[(us
             GroupRef::New => new_gid.clone().unwrap_or_else(|| "no-such-group".to_string()),
         }
     };
-    let mut rr = RunResult { broken: vec![], kinds: vec![], sig_kinds: vec![], touched: vec![], trace: vec![], state: J::Null, violating_step: None };
+    let mut rr = RunResult { broken: vec![], kinds: vec![], sig_kinds: vec![], shared: vec![], touched: vec![], trace: vec![], state: J::Null, violating_step: None };
     for (si, (oi, ph)) in sched.iter().enumerate() {
         let op = &ops[*oi];
         let mut note = J::Null;
@@ -488,7 +491,7 @@ fn run_history(coord: &mut Coordinator, l: &Layout, ops: &[OpSpec], sched: &[(us
                         }
                         kinds[*oi] = "teardown".into();
                         if plan.tasks.iter().any(|(n, _)| name_shared(coord, &gid, n)) {
-                            sig_kinds[*oi] = "teardown(shared-name)".into();
+                            shared_flags[*oi] = true;
                             kinds[*oi] = "teardown(shared-name)".into();
                         }
                         if want_trace {
@@ -506,7 +509,7 @@ fn run_history(coord: &mut Coordinator, l: &Layout, ops: &[OpSpec], sched: &[(us
             (OpSpec::Teardown { .. }, _) => {
                 if let Pending::Teardown(plan) = std::mem::replace(&mut pending[*oi], Pending::None) {
                     if plan.tasks.iter().any(|(n, _)| name_shared(coord, &plan.group_id, n)) {
-                        sig_kinds[*oi] = "teardown(shared-name)".into();
+                        shared_flags[*oi] = true;
                     }
                     coord.commit_teardown_group(&plan);
                 } else {
@@ -526,10 +529,11 @@ fn run_history(coord: &mut Coordinator, l: &Layout, ops: &[OpSpec], sched: &[(us
                         } else {
                             "migrate".to_string()
                         };
-                        if name_shared(coord, &gid, &plan.pipeline_name) {
-                            k = "migrate(shared-name)".to_string();
-                        }
                         sig_kinds[*oi] = k.clone();
+                        if name_shared(coord, &gid, &plan.pipeline_name) {
+                            shared_flags[*oi] = true;
+                            k.push_str("(shared-name)");
+                        }
                         kinds[*oi] = k;
                         if want_trace {
                             note = json!({"plan": {"pipeline": plan.pipeline_name, "from": plan.source_worker_id.0, "to": plan.target_worker_id.0, "source_placement_status": format!("{:?}", plan.deployment.status), "source_epoch": plan.deployment.epoch}});
@@ -547,7 +551,7 @@ fn run_history(coord: &mut Coordinator, l: &Layout, ops: &[OpSpec], sched: &[(us
                 if let Pending::Migrate(plan) = std::mem::replace(&mut pending[*oi], Pending::None) {
                     uid += 1;
                     if name_shared(coord, &plan.group_id, &plan.pipeline_name) {
-                        sig_kinds[*oi] = "migrate(shared-name)".into();
+                        shared_flags[*oi] = true;
                     }
                     if *success {
                         coord.commit_migrate_pipeline(&plan, &format!("pid-{}", uid), true, None);
@@ -588,6 +592,7 @@ fn run_history(coord: &mut Coordinator, l: &Layout, ops: &[OpSpec], sched: &[(us
     }
     rr.kinds = kinds;
     rr.sig_kinds = sig_kinds;
+    rr.shared = shared_flags;
     rr.touched = touched;
     rr.trace = trace;
     if want_trace {
@@ -655,7 +660,7 @@ fn driver_a(args: &Args, rep: &mut Report) {
     }
     // quick tier: all singles and pairs, and a deterministic stride over the triples (same for every seed
     // so that the signature set does not depend on the seed); thorough: everything.
-    let stride = if thorough { 1 } else { 5 };
+    let stride = if thorough { 1 } else { 8 };
     let mut t = 0usize;
     work.retain(|(_, ops)| {
         if ops.len() < 3 {
@@ -801,11 +806,8 @@ fn driver_a(args: &Args, rep: &mut Report) {
                     let (voi, _) = sched[vstep];
                     let inv = invalidators(ops, &sched, voi);
                     for (clause, detail) in &r.broken {
-                        let sig = if inv.is_empty() || r.sig_kinds[voi].ends_with("(shared-name)") {
-                            format!("{}/{}", r.sig_kinds[voi], clause)
-                        } else {
-                            format!("{}/stale-after:{}/{}", r.sig_kinds[voi], inv.iter().cloned().collect::<Vec<_>>().join("+"), clause)
-                        };
+                        let inv_s: BTreeSet<String> = inv.iter().map(|k| k.to_string()).collect();
+                        let sig = signature(&r.sig_kinds[voi], clause, &inv_s, r.shared[voi], &BTreeSet::new());
                         out.violation(
                             &sig,
                             "coordinator bookkeeping inconsistent after a step of this history (plan/commit phases called exactly as the REST handlers call them)",
@@ -1300,9 +1302,11 @@ async fn run_b(env: &Env, l: &BLayout, case: &BCase) -> Result<BRun, String> {
     Ok(run)
 }
 
-/// Signature of a driver-b violation (finite enumerations only).
-fn b_signature(vkind: &str, clause: &str, inv: &BTreeSet<String>, shared: bool, other_kinds: &BTreeSet<String>) -> String {
+/// Signature of a violation (finite enumerations only): kind of the operation whose step broke the invariant,
+/// the classes of state change that fell inside its plan..commit window, the broken clause.
+fn signature(vkind: &str, clause: &str, inv: &BTreeSet<String>, shared: bool, other_kinds: &BTreeSet<String>) -> String {
     let base = strip_quals(vkind);
+    // bare pipeline names in assigned_pipelines: a name used by two groups is one root cause whatever the entry point
     if clause == "missing-assignment" && shared {
         let k = if ["drain", "failover", "rebalance", "tick", "restart"].contains(&base.as_str()) { "auto-migration".to_string() } else { base };
         return format!("{}(shared-name)/{}", k, clause);
@@ -1322,13 +1326,19 @@ fn b_signature(vkind: &str, clause: &str, inv: &BTreeSet<String>, shared: bool, 
         };
         return format!("{}-after:{}/{}", vkind, after, clause);
     }
-    if vkind.contains("(to-same-worker)") || vkind.contains("(source-not-running)") {
-        return format!("{}/{}", vkind, clause);
+    // self-contained defects of a migration, each with its characteristic clause
+    if vkind.contains("(to-same-worker)") && clause == "missing-assignment" {
+        return format!("migrate(to-same-worker)/{}", clause);
     }
+    if vkind.contains("(source-not-running)") && clause == "running-count" {
+        return format!("migrate(source-not-running)/{}", clause);
+    }
+    let vkind = if vkind.starts_with("migrate(") { "migrate".to_string() } else { vkind };
     // operations that only enable the others (create a group, add a worker) do not invalidate a plan by themselves
+    let enabling = ["deploy", "register", "heartbeat", "other"];
     let mut inv: BTreeSet<String> = inv.iter().map(|k| if k == "drain" { if clause == "orphaned-running-placement" { "worker-removal".to_string() } else { "migration".to_string() } } else { k.clone() }).collect();
-    if inv.iter().any(|k| !["deploy", "register", "heartbeat", "other"].contains(&k.as_str())) {
-        inv.retain(|k| !["deploy", "register", "heartbeat", "other"].contains(&k.as_str()));
+    if inv.iter().any(|k| !enabling.contains(&k.as_str())) {
+        inv.retain(|k| !enabling.contains(&k.as_str()));
     }
     if inv.is_empty() {
         format!("{}/{}", vkind, clause)
@@ -1471,8 +1481,8 @@ fn collapse_window(case: &BCase, i: usize) -> Option<BCase> {
 
 fn driver_b(args: &Args, rep: &mut Report) {
     let threads = ncpu().min(8);
-    let budget = Duration::from_secs(args.pick(12, 240));
-    let max_cases: u64 = args.pick(2000, 60000);
+    let budget = Duration::from_secs(args.pick(9, 240));
+    let max_cases: u64 = args.pick(1500, 60000);
     let parts = parallel(threads, args.seed ^ 0xB0B, move |ti, mut rng| {
         let mut out = Partial::default();
         let rt = match tokio::runtime::Builder::new_current_thread().enable_all().build() {
@@ -1625,7 +1635,7 @@ fn driver_b(args: &Args, rep: &mut Report) {
                 let shared = cur_run.shared_at_commit.contains(&voi) || cur_run.shared_now || cur_run.kinds[voi].contains("(shared-name)");
                 let other_kinds: BTreeSet<String> = cur_run.kinds.iter().enumerate().filter(|(i, k)| *i != voi && !k.is_empty()).map(|(_, k)| strip_quals(k)).collect();
                 for (clause, detail) in &cur_run.broken {
-                    let sig = b_signature(&vkind, clause, &inv, shared, &other_kinds);
+                    let sig = signature(&vkind, clause, &inv, shared, &other_kinds);
                     out.violation(
                         &sig,
                         "coordinator bookkeeping inconsistent after a step of this history (real REST handlers / drain / failover / rebalance against loopback mock workers)",
@@ -1665,7 +1675,7 @@ fn main() {
     }
     watchdog("C32", args.pick(240, 3600));
     let mut rep = Report::new("C32", "exploration", &args);
-    rep.rule = "driver a: every single operation, every pair and (quick: every 5th, thorough: every) triple of operations from a per-layout menu \
+    rep.rule = "driver a: every single operation, every pair and (quick: every 8th, thorough: every) triple of operations from a per-layout menu \
 (deploy x every per-task outcome, teardown, manual migration x both outcomes x every target worker, deregister, register) in every order of their plan/commit phases, \
 on 3 layouts (2-3 workers, 1-2 groups); non-trivial = >=2 operations where one's state change falls inside the other's plan..commit window and both touch a common worker, \
 distinct by (layout, operations, order). driver b: real REST handlers / drain / failover / rebalance against gated loopback mock workers."
